@@ -18,6 +18,7 @@
 #include <cstdlib>
 #include <cstring>
 #include <functional>
+#include <memory>
 #include <map>
 #include <mutex>
 #include <sstream>
@@ -438,6 +439,34 @@ namespace verif {
         std::_Exit(code);
     }
 
+    // ---------------------------------------------------------------- in-process progress watchdog
+    // For workloads that can end in an endless loop inside the code under test (corrupted containers, a wait that never
+    // returns): when `progress()` has not changed for `seconds`, the witness is reported under `key` and the process leaves.
+    // A plain case time-out would only say "no result"; this says where it stopped.  Stop it with `alive = false`.
+    inline void start_progress_watchdog(std::function<std::uint64_t()> progress, int seconds, std::string key, std::function<std::string()> what,
+        std::shared_ptr<std::atomic<bool>> alive)
+    {
+        std::thread([=] {
+            std::uint64_t last = progress();
+            int same = 0;
+            while (alive->load())
+            {
+                std::this_thread::sleep_for(std::chrono::seconds(1));
+                std::uint64_t cur = progress();
+                if (cur != last)
+                {
+                    last = cur;
+                    same = 0;
+                    continue;
+                }
+                if (++same < seconds) continue;
+                if (!alive->load()) return;
+                report.violation(key, sf("no progress for %d s: %s", seconds, what().c_str()));
+                bail(0);
+            }
+        }).detach();
+    }
+
     // ---------------------------------------------------------------- argument parsing
     struct args_t
     {
@@ -532,6 +561,7 @@ namespace verif {
         int stable_needed = 25)
     {
         int stable = 0;
+        auto quiet_since = std::chrono::steady_clock::now();
         std::uint64_t last_prog = progress();
         auto last_change = std::chrono::steady_clock::now();
         std::size_t npools = pika::resource::get_num_thread_pools();
@@ -542,15 +572,23 @@ namespace verif {
             for (std::size_t i = 0; i < npools; ++i)
             {
                 auto& pool = pika::resource::get_thread_pool(i);
-                busy += pool.get_thread_count_pending(std::size_t(-1), false);
-                busy += pool.get_thread_count_active(std::size_t(-1), false);
-                busy += pool.get_thread_count_staged(std::size_t(-1), false);
+                // the counters are unsynchronised statistics (per queue, may be transiently off or even negative): any non-zero
+                // value counts as activity, values never cancel each other
+                auto mag = [](std::int64_t v) { return v < 0 ? -v : v; };
+                busy += mag(pool.get_thread_count_pending(std::size_t(-1), false));
+                busy += mag(pool.get_thread_count_active(std::size_t(-1), false));
+                busy += mag(pool.get_thread_count_staged(std::size_t(-1), false));
             }
             busy += g_external_busy.load();
             bool delaying = g_perturb.in_delay.load() != 0;
             if (busy == 0 && !delaying)
             {
-                if (++stable >= stable_needed) return done() ? wait_result::done : wait_result::deadlock;
+                // a deadlock verdict needs `stable_needed` consecutive quiet samples AND at least 1.2 s of uninterrupted quiet:
+                // a task that is only invisible to the statistics for a moment (or yield-polls towards a deadline a few hundred
+                // ms away) finishes within that time and turns the verdict into `done`
+                if (stable == 0) quiet_since = std::chrono::steady_clock::now();
+                if (++stable >= stable_needed && std::chrono::duration<double>(std::chrono::steady_clock::now() - quiet_since).count() >= 1.2)
+                    return done() ? wait_result::done : wait_result::deadlock;
             }
             else
                 stable = 0;
